@@ -79,6 +79,28 @@ class Driver:
                 return ("item", next(it))
             except StopIteration:
                 return ("stop",)
+        if op.endswith("_parts"):
+            # a caller that consumes ONE walk object in several loops (peek with next(), a for loop left with
+            # break, then another for loop over the same object): legitimate use of an iterator
+            it = getattr(s, op[:-6])(*args)
+            out = self.partial = []
+            for head in list(getattr(self, "part_sizes", None) or [1, 2]):
+                n = 0
+                if head == 0:
+                    continue
+                for x in it:
+                    out.append(x)
+                    n += 1
+                    if n >= head:
+                        break
+                else:
+                    return out
+            for x in it:
+                out.append(x)
+                if len(out) >= limit:
+                    out.append("LIMIT")
+                    break
+            return out
         if op.endswith("_retry"):
             # a caller that retries next() on the same iterator after a timeout
             it = getattr(s, op[:-6])(*args)
@@ -123,6 +145,28 @@ class Driver:
                 return ("item", await it.__anext__())
             except StopAsyncIteration:
                 return ("stop",)
+        if op.endswith("_parts"):
+            it = getattr(s, op[:-6])(*args)
+            out = self.partial = []
+            for head in list(getattr(self, "part_sizes", None) or [1, 2]):
+                n = 0
+                if head == 0:
+                    continue
+                done = True
+                async for x in it:
+                    out.append(x)
+                    n += 1
+                    if n >= head:
+                        done = False
+                        break
+                if done:
+                    return out
+            async for x in it:
+                out.append(x)
+                if len(out) >= limit:
+                    out.append("LIMIT")
+                    break
+            return out
         if op.endswith("_retry"):
             it = getattr(s, op[:-6])(*args)
             out = self.partial = []
